@@ -1,10 +1,16 @@
-"""os / os.path model: a small path algebra.
+"""os / os.path model: a structural path algebra (decidable without a solver).
 
-A PathVal is a sequence of parts; each part is a literal component string, or a symbolic piece:
-  ("sym", opaque)  an unknown path text (zero or more components, may be absolute, may end with '/')
-  ("dir", opaque)  os.path.split(sym)[0]      ("base", opaque)  os.path.split(sym)[1]
-  ("name", opaque) exactly one non-empty component without '/'
-plus flags: absolute (starts with '/'), trailing (ends with '/').
+A PathVal is a list of components plus two flags (absolute, trailing separator).  A component is
+  a literal string (non-empty, no '/', not '.' or '..'),
+  ("name", opaque)          one unknown non-empty component without '/', not '.' / '..'
+  ("cat", comp, "lit")      the text of comp followed by a non-empty literal without '/'
+  ("fun", tag, comp...)     a text computed from other components by string operations the algebra does not look into
+                            (never contains '/': str.replace / slicing / formatting of '/'-free texts); its relation to
+                            other components is unknown unless a branch decided it
+  ("dir", opaque)           an unknown run of ONE OR MORE components (only as the leading part of a path; the form
+                            without leading directories is a separate case of every task)
+Assumptions (listed in the evidence): input path texts contain no empty, '.' or '..' components, so
+os.path.normpath only removes a trailing separator; '/' is the separator.
 """
 import z3
 from .vals import *  # noqa
@@ -18,15 +24,51 @@ class PathVal:
         self.absolute = absolute
         self.trailing = trailing
 
-    def key(self):
-        def k(p):
-            return p if isinstance(p, str) else (p[0], id(p[1]))
-        return (tuple(k(p) for p in self.parts), self.absolute, self.trailing)
-
     def __repr__(self):
         def r(p):
-            return p if isinstance(p, str) else f"<{p[0]}:{p[1].name}>"
-        return ("/" if self.absolute else "") + "/".join(r(p) for p in self.parts) + ("/" if self.trailing else "")
+            if isinstance(p, str):
+                return p
+            if p[0] in ("name", "dir"):
+                return f"<{p[0]}:{p[1].name}>"
+            if p[0] == "cat":
+                return r(p[1]) + p[2]
+            return f"<{p[1]}({','.join(r(x) for x in p[2:])})>"
+        return ("/" if self.absolute else "") + "/".join(r(p) for p in self.parts) + ("/" if self.trailing and self.parts else "")
+
+
+def comp_eq(ex, a, b):
+    """True / False / None (unknown) for equality of two components."""
+    if isinstance(a, str) and isinstance(b, str):
+        return a == b
+    if a is b:
+        return True
+    if not isinstance(a, str) and not isinstance(b, str) and a[0] == b[0]:
+        if a[0] in ("name", "dir"):
+            if a[1] is b[1]:
+                return True
+        elif a[0] == "cat":
+            e = comp_eq(ex, a[1], b[1])
+            if a[2] == b[2]:
+                return e
+            if e is True:
+                return False
+        elif a[0] == "fun" and a[1] == b[1] and len(a) == len(b) and all(comp_eq(ex, x, y) is True for x, y in zip(a[2:], b[2:])):
+            return True
+    # text of x followed by a non-empty literal is never x itself
+    for x, y in ((a, b), (b, a)):
+        if not isinstance(x, str) and x[0] == "cat" and comp_eq(ex, x[1], y) is True:
+            return False
+        # the concatenation of two non-empty component texts is neither of them
+        if not isinstance(x, str) and x[0] == "fun" and x[1] == "concat" and \
+                (comp_eq(ex, x[2], y) is True or comp_eq(ex, x[3], y) is True):
+            return False
+    decided = ex.ctx.ghost.setdefault("comp_eq", {})
+    k = (repr(a), repr(b))
+    if k in decided:
+        return decided[k]
+    if (k[1], k[0]) in decided:
+        return decided[(k[1], k[0])]
+    return None
 
 
 def to_path(ex, v):
@@ -35,96 +77,63 @@ def to_path(ex, v):
     if isinstance(v, str):
         if v == "":
             return PathVal([], False, False)
-        absolute = v.startswith("/")
-        trailing = v.endswith("/") and len(v) > 1
         parts = [c for c in v.split("/") if c != ""]
-        return PathVal(parts, absolute, trailing)
+        return PathVal(parts, v.startswith("/"), v.endswith("/") and bool(parts))
     if isinstance(v, Opaque):
-        if v.kind == "name":
-            return PathVal([("name", v)], False, False)
-        return PathVal([("sym", v)], False, False)
+        return PathVal([("name", v)] if v.kind == "name" else [("dir", v)], v.attrs.get("absolute", False), False)
     if isinstance(v, SStr):
-        parts = []
-        cur = []
-        for seg in v.segs:
-            if isinstance(seg, str):
-                pieces = seg.split("/")
-                for i, pc in enumerate(pieces):
-                    if i > 0:
-                        parts.append(cur)
-                        cur = []
-                    if pc:
-                        cur.append(pc)
-            else:
-                cur.append(seg)
-        parts.append(cur)
-        out = []
-        for c in parts:
-            if not c:
-                continue
-            if len(c) == 1 and isinstance(c[0], str):
-                out.append(c[0])
-            elif len(c) == 1 and isinstance(c[0], NameAtom):
-                out.append(("name", c[0].op))
-            else:
-                out.append(("comp", Opaque("comp" + repr(SStr(c)), "name", segs=c)))
-        lit0 = v.segs[0] if isinstance(v.segs[0], str) else ""
-        litn = v.segs[-1] if isinstance(v.segs[-1], str) else ""
-        return PathVal(out, lit0.startswith("/"), litn.endswith("/"))
+        # f-string / concatenation result without '/': one computed component
+        if any(isinstance(s, str) and "/" in s for s in v.segs):
+            raise Unsupported("path text assembled from symbolic pieces around a separator")
+        return PathVal([("fun", "text:" + repr(v))], False, False)
     raise SymRaise("TypeError", f"expected str, bytes or os.PathLike object, not {typetag(v)}")
+
+
+def join2(ex, a, b):
+    a, b = to_path(ex, a), to_path(ex, b)
+    if b.absolute:
+        return PathVal(b.parts, True, b.trailing)
+    if b.parts and not isinstance(b.parts[0], str) and b.parts[0][0] == "dir" and not b.absolute:
+        o = b.parts[0][1]
+        if "absolute" not in o.attrs:
+            raise Unsupported("join with a path whose absoluteness the task did not fix")
+    if not b.parts:
+        return PathVal(a.parts, a.absolute, bool(a.parts))
+    return PathVal(a.parts + b.parts, a.absolute, b.trailing)
 
 
 @lib("os", "getcwd")
 def os_getcwd(ex, args, kw):
     cwd = ex.ctx.ghost.get("cwd")
     if cwd is None:
-        cwd = Opaque("CWD", "path")
+        cwd = Opaque("CWD", "path", absolute=True)
         ex.ctx.ghost["cwd"] = cwd
-    return PathVal([("sym", cwd)], True, False)
-
-
-def sym_is_abs(ex, op):
-    """Whether a symbolic path text is absolute: decided by the task (attrs) or branched on a ghost bool."""
-    if "absolute" in op.attrs:
-        return op.attrs["absolute"]
-    b = z3.Bool(f"abs_{op.name}")
-    return ex.ctx.branch(b)
+    return PathVal([("dir", cwd)], True, False)
 
 
 @lib("os.path", "join")
 def os_path_join(ex, args, kw):
     cur = to_path(ex, args[0])
     for a in args[1:]:
-        p = to_path(ex, a)
-        is_abs = p.absolute
-        if not is_abs and p.parts and not isinstance(p.parts[0], str) and p.parts[0][0] == "sym":
-            is_abs = sym_is_abs(ex, p.parts[0][1])
-        if is_abs:
-            cur = PathVal(p.parts, True, p.trailing) if p.absolute else PathVal(p.parts, False, p.trailing)
-            cur.abs_from_sym = True
-            continue
-        if not p.parts:
-            cur = PathVal(cur.parts, cur.absolute, True)
-            continue
-        cur = PathVal(cur.parts + p.parts, cur.absolute, p.trailing)
+        cur = join2(ex, cur, a)
     return cur
+
+
+@lib("os.path", "normpath")
+def os_path_normpath(ex, args, kw):
+    p = to_path(ex, args[0])
+    return PathVal(p.parts, p.absolute, False)
 
 
 @lib("os.path", "split")
 def os_path_split(ex, args, kw):
     p = to_path(ex, args[0])
-    if p.trailing:
+    if p.trailing or not p.parts:
         return (PathVal(p.parts, p.absolute, False), "")
-    if not p.parts:
-        return (PathVal([], p.absolute, False), "")
     last = p.parts[-1]
-    if isinstance(last, str) or last[0] in ("name", "base", "comp"):
-        tail = last if isinstance(last, str) else PathVal([last])
-        return (PathVal(p.parts[:-1], p.absolute, False), tail)
-    if last[0] == "sym":
-        op = last[1]
-        return (PathVal(p.parts[:-1] + [("dir", op)], p.absolute, False), PathVal([("base", op)]))
-    raise Unsupported(f"os.path.split of {p!r}")
+    if not isinstance(last, str) and last[0] == "dir":
+        raise Unsupported("os.path.split of a path ending in an unknown run of components")
+    return (PathVal(p.parts[:-1], p.absolute, False), PathVal([last], False, False))
 
 
 @lib("os.path", "basename")
@@ -142,36 +151,120 @@ def os_path_abspath(ex, args, kw):
     p = to_path(ex, args[0])
     if p.absolute:
         return PathVal(p.parts, True, False)
-    return os_path_join(ex, [os_getcwd(ex, [], {}), PathVal(p.parts, False, False)], {})
+    return join2(ex, os_getcwd(ex, [], {}), PathVal(p.parts, False, False))
+
+
+def path_concat(ex, a, b):
+    """python '+' between a path text and a literal"""
+    if isinstance(a, PathVal) and isinstance(b, str):
+        if "/" in b:
+            extra = to_path(ex, b)
+            if b.startswith("/"):
+                return PathVal(a.parts + extra.parts, a.absolute, extra.trailing)
+            raise Unsupported("path + literal containing a separator in the middle")
+        if b == "":
+            return a
+        if a.trailing or not a.parts:
+            return PathVal(a.parts + [b], a.absolute, False)      # 'plt/' + '_ck' == 'plt/_ck'
+        return PathVal(a.parts[:-1] + [("cat", a.parts[-1], b)], a.absolute, False)
+    if isinstance(a, str) and isinstance(b, PathVal):
+        if a == "":
+            return b
+        if "/" in a or b.absolute or len(b.parts) != 1:
+            raise Unsupported("literal + path")
+        return PathVal([("fun", "prefix:" + a, b.parts[0])], False, b.trailing)
+    if isinstance(a, PathVal) and isinstance(b, PathVal):
+        if a.trailing or b.absolute or len(a.parts) != 1 or len(b.parts) != 1 or a.absolute:
+            raise Unsupported("concatenation of two path texts")
+        return PathVal([("fun", "concat", a.parts[0], b.parts[0])], False, b.trailing)
+    raise Unsupported("path concatenation")
+
+
+@method("PathVal", "replace")
+def pv_replace(ex, self, args, kw):
+    a, b = args[0], args[1]
+    if not isinstance(a, str) or not isinstance(b, str) or "/" in a or "/" in b:
+        raise Unsupported("replace on a path with non-literal or separator arguments")
+    if len(self.parts) != 1 or self.absolute or self.trailing:
+        raise Unsupported("replace on a multi-component path")
+    return PathVal([("fun", f"replace:{a}:{b}", self.parts[0])], False, False)
+
+
+@method("PathVal", "split")
+def pv_split(ex, self, args, kw):
+    if args and args[0] == "/":
+        return [p if isinstance(p, str) else PathVal([p]) for p in self.parts]
+    raise Unsupported("str.split on a path")
+
+
+def path_eq(ex, a, b):
+    """== between path texts: decided structurally, otherwise a branch point (both outcomes explored and remembered)."""
+    a, b = to_path(ex, a), to_path(ex, b)
+    hasdir = lambda p: any(not isinstance(q, str) and q[0] == "dir" for q in p.parts)
+    if a.absolute != b.absolute or a.trailing != b.trailing:
+        return False
+    if hasdir(a) or hasdir(b):
+        # a run stands for one or more components: the other side needs at least as many components
+        for x, y in ((a, b), (b, a)):
+            if hasdir(x) and not hasdir(y) and len(y.parts) < len(x.parts):
+                return False
+        raise Unsupported("equality of paths with unknown runs of components")
+    if len(a.parts) != len(b.parts):
+        return False
+    res = True
+    for x, y in zip(a.parts, b.parts):
+        e = comp_eq(ex, x, y)
+        if e is False:
+            return False
+        if e is None:
+            c = ex.ctx.choose(2)
+            e = (c == 0)
+            ex.ctx.ghost.setdefault("comp_eq", {})[(repr(x), repr(y))] = e
+            if not e:
+                return False
+    return res
+
+
+def is_inside(ex, x, root):
+    """x == root or x lies under root: True / False / None(unknown)"""
+    x, root = to_path(ex, x), to_path(ex, root)
+    if x.absolute != root.absolute:
+        return None if any(not isinstance(p, str) and p[0] == "dir" for p in x.parts + root.parts) else False
+    if len(root.parts) > len(x.parts):
+        # an unknown run inside x could still make it longer
+        if any(not isinstance(p, str) and p[0] == "dir" for p in x.parts):
+            return None
+        return False
+    unknown = False
+    for a, b in zip(x.parts, root.parts):
+        e = comp_eq(ex, a, b)
+        if e is False:
+            return False
+        if e is None:
+            unknown = True
+    return None if unknown else True
 
 
 @lib("os", "makedirs")
 def os_makedirs(ex, args, kw):
-    fs = ex.ctx.ghost.get("fs")
     p = to_path(ex, args[0])
     ex.ctx.note("mkdir", p)
-    if fs is not None and hasattr(fs, "makedirs"):
-        return fs.makedirs(ex, p, kw.get("exist_ok", False))
+    ex.ctx.ghost.setdefault("write_sites", []).append(("makedirs", p))
     return None
 
 
 @lib("os", "mkdir")
 def os_mkdir(ex, args, kw):
-    fs = ex.ctx.ghost.get("fs")
     p = to_path(ex, args[0])
     ex.ctx.note("mkdir", p)
-    if fs is not None and hasattr(fs, "mkdir"):
-        return fs.mkdir(ex, p)
+    ex.ctx.ghost.setdefault("write_sites", []).append(("mkdir", p))
     return None
 
 
 @lib("shutil", "rmtree")
 def shutil_rmtree(ex, args, kw):
-    fs = ex.ctx.ghost.get("fs")
     p = to_path(ex, args[0])
-    ex.ctx.note("rmtree", p)
-    if fs is not None and hasattr(fs, "rmtree"):
-        return fs.rmtree(ex, p)
+    ex.ctx.ghost.setdefault("write_sites", []).append(("rmtree", p))
     return None
 
 
